@@ -126,11 +126,56 @@ def death(how, v, pending):
     return {"how": [how, v], "results": res, "later_submit": later, "earlier_result": done.result(0),
             "alive_after": [p for p in workers if alive(p)], "zombies": zombies_of_me()}
 
+def churn_task():
+    """runs in a worker: keeps about 8 short-lived children around, for ever"""
+    kids = []
+    while True:
+        pid = os.fork()
+        if pid == 0:
+            time.sleep(0.004)
+            os._exit(0)
+        kids.append(pid)
+        if len(kids) >= 8:
+            os.waitpid(kids.pop(0), 0)
+
+def churn(trials, use_psutil):
+    """forced shutdown of workers whose process trees change while they are being killed"""
+    import threading
+    import loky.backend.utils as U
+    if not use_psutil:
+        U.psutil = None
+    from loky import ProcessPoolExecutor
+    hung, took, survivors = 0, [], []
+    for _ in range(trials):
+        e = ProcessPoolExecutor(2)
+        fs = [e.submit(churn_task) for _ in range(2)]
+        time.sleep(0.5)
+        pids = list(e._processes)
+        th = threading.Thread(target=lambda: e.shutdown(wait=True, kill_workers=True), daemon=True)
+        t0 = time.time(); th.start(); th.join(10)
+        if th.is_alive():
+            hung += 1
+        else:
+            took.append(round(time.time() - t0, 2))
+        time.sleep(0.2)
+        survivors += [p for p in pids if alive(p)]
+        for p in pids:                       # clean up by hand whatever happened
+            try:
+                os.kill(p, signal.SIGKILL)
+            except OSError:
+                pass
+        if th.is_alive():
+            th.join(15)
+    return {"trials": trials, "hung": hung, "max_took_s": max(took) if took else None, "workers_alive_after": survivors,
+            "psutil": U.psutil is not None}
+
 if __name__ == "__main__":
     import tempfile
     mode = sys.argv[1]
     d = tempfile.mkdtemp(prefix="lokyv_kill_")
-    if mode == "forced":
+    if mode == "churn":
+        out = churn(int(sys.argv[2]), sys.argv[3] == "1")
+    elif mode == "forced":
         out = forced(d, sys.argv[2] == "1", sys.argv[3] == "1", sys.argv[4] == "1")
     else:
         out = death(sys.argv[2], int(sys.argv[3]), int(sys.argv[4]))
